@@ -1,13 +1,16 @@
 from props.shapes import *
 from props.xorsets import TABLES
 
-def fn_ob(be, k, m, hd, lo, hi, beyond=False, rev=False, timeout=900, mem=8):
+def fn_ob(be, k, m, hd, lo, hi, beyond=False, rev=False, timeout=900, mem=4, l1=None):
     defs = dict(BE=be, K=k, M=m, HD=hd, LO=lo, HI=hi)
+    if l1 is None:
+        l1 = (be == XOR)
+    if l1: defs["L1XOR"] = None
     if beyond: defs["BEYOND"] = None
     if rev: defs["REVERSED"] = None
-    return Ob(id=f"need-{BNAME[be]}{k}_{m}_{hd}-{lo}to{hi}" + ("-beyond" if beyond else "") + ("-rev" if rev else ""), harness="c06.c", defs=defs,
-              units=FRONT + ["xor_eq"], unwind=max(k + m + 4, 35), timeout=timeout, mem_gb=mem,
-              unwindset={"ec_init_tables.0": 40, "ec_init_tables.1": 40, "ec_init_tables.2": 40},
+    return Ob(id=f"need-{BNAME[be]}{k}_{m}_{hd}-{lo}to{hi}" + ("-beyond" if beyond else "") + ("-rev" if rev else "") + ("" if l1 or be != XOR else "-api"), harness="c06.c", defs=defs,
+              units=(["xor_code", "xor_hd_code", "xor_eq", "env"] if l1 else FRONT + ["xor_eq"]), unwind=k + m + 4, timeout=timeout, mem_gb=mem,
+              unwindset={"pop.0": 34, "xor_eq_find.0": 40, "ec_init_tables.0": 40, "ec_init_tables.1": 40, "ec_init_tables.2": 40},
               sample={"symbolic": f"disjoint bitmasks R (non-empty), X over {k+m} indexes with {lo} <= |R|+|X| <= {hi}", "shape": [BNAME[be], k, m, hd],
                       "list_order": "descending" if rev else "ascending", "beyond_tolerance": beyond},
               targets=["liberasurecode_fragments_needed"] + (["flat_xor_hd_min_fragments", "xor_hd_fragments_needed", "fragments_needed_one_data", "fragments_needed_two_data",
@@ -22,6 +25,9 @@ def plan(ctx):
         obs.append(fn_ob(XOR, k, m, hd, hd, m, beyond=True))
         if thorough or (k, m, hd) in ((3, 3, 3), (6, 5, 4)):
             obs.append(fn_ob(XOR, k, m, hd, 1, hd - 1, rev=True))
+    # the public wrapper + adapter on the smallest table (return-code propagation, argument forwarding)
+    obs.append(fn_ob(XOR, 3, 3, 3, 1, 2, l1=False, timeout=1800, mem=12))
+    obs.append(fn_ob(XOR, 3, 3, 3, 3, 3, beyond=True, l1=False, timeout=1800, mem=12))
     rs = [(RS, 2, 1), (RS, 3, 2), (RS, 4, 2), (RS, 5, 3), (ISAV, 4, 2), (ISAC, 3, 3), (ISAV, 10, 4)] + ([(RS, 6, 3), (RS, 8, 4), (RS, 10, 2), (ISAV, 8, 4), (ISAC, 8, 4), (ISAV, 28, 4), (ISAV, 16, 16)] if thorough else [])
     for be, k, m in rs:
         obs.append(fn_ob(be, k, m, m, 1, m))
